@@ -97,6 +97,10 @@ func build(c *conCase, seq int) (l *live, herr error) {
 				}
 			}
 			for _, n := range c.Layers[i].Notdef {
+				if key(n.Lo) == key(n.Hi) && c.NotdefSingles {
+					f.NotdefSingles = append(f.NotdefSingles, cmap.Single{Code: toBytes(n.Lo), Value: cmap.CID(n.V)})
+					continue
+				}
 				f.NotdefRanges = append(f.NotdefRanges, cmap.Range{First: toBytes(n.Lo), Last: toBytes(n.Hi), Value: cmap.CID(n.V)})
 			}
 			data := map[charcode.Code]cid.CID{}
@@ -162,7 +166,7 @@ func build(c *conCase, seq int) (l *live, herr error) {
 // query asks the real code everything the record holds.
 func query(c *conCase, stage string, fc *cmap.File, ft *cmap.ToUnicodeFile, codec *charcode.Codec, errText string) (rec record) {
 	rec = record{Kind: c.Kind, Stage: stage, Err: errText, CSR: c.CSR, Layers: c.Layers, File: c.File, Opt: c.Opt, Origin: c.Origin, ProbeCodes: c.Probes,
-		ParentName: c.ParentName, CloneStep: c.CloneStep}
+		ParentName: c.ParentName, CloneStep: c.CloneStep, NotdefSingles: c.NotdefSingles}
 	defer rec.normalise()
 	if errText != "" {
 		return rec
